@@ -578,3 +578,131 @@ def pipeline_level(ck, outs):
                       "correspondence": "Model/TensorAddr.createFeatureMap vs high_level_command_to_npu_op.create_feature_map"},
                      found_input=bool(alloc_bad))
     return n_fm, n_streams
+
+
+# ------------------------------------------------------------------------------------------------
+# networks that aim at the hypotheses of the theorems (operator shape != tensor shape, depth offsets that are not
+# multiples of 16, TRANSPOSE, half-pixel RESIZE_BILINEAR = stride multiplier + tile base offsets)
+
+TA_FAMILIES = ["reshape_mid", "reshape_mid", "concat_unaligned", "slice_unaligned", "transpose", "resize_half_pixel", "split_unaligned"]
+
+
+def ta_net(rng, idx):
+    import netgen
+    from netgen import Op
+
+    fam = TA_FAMILIES[idx % len(TA_FAMILIES)]
+    dtype = rng.choice(["int8", "int8", "uint8", "int16"]) if fam in ("reshape_mid", "transpose") else rng.choice(["int8", "uint8"])
+    b = netgen.B(rng, f"ta{idx}_{fam}", dtype)
+    b.net.desc.append(f"ta family={fam} dtype={dtype}")
+    h, w = rng.choice([2, 4, 6, 8]), rng.choice([2, 4, 6, 8])
+    x = b.input([1, h, w, rng.choice([4, 8, 16])])
+
+    def npu_tail(y):
+        k = rng.choice(["conv", "relu", "pool", "add"])
+        if k == "conv":
+            z = b.conv(y, rng.choice([8, 16, 20]), (1, 1), (1, 1), (1, 1), "SAME")
+            return z if z is not None else b.unary("RELU", y)
+        if k == "relu":
+            return b.unary("RELU", y)
+        if k == "pool":
+            return b.pool(y, "MAX_POOL_2D", (1, 1), (1, 1), "VALID")
+        return b.binary("ADD", y, y)
+
+    if fam == "reshape_mid":
+        c1 = rng.choice([20, 40, 17, 24, 33, 16, 48])
+        y = b.conv(x, c1, rng.choice([(1, 1), (3, 3)]), (1, 1), (1, 1), "SAME")
+        cands = [[1, 1, h * w, c1], [1, h * w, 1, c1], [1, w, h, c1]]
+        if c1 % 2 == 0:
+            cands += [[1, h, w * 2, c1 // 2], [1, h * 2, w, c1 // 2]]
+        if h % 2 == 0:
+            # merging rows into channels: the producer's operator shape, rounded to bricks, is larger than the tensor
+            cands += [[1, h // 2, w, c1 * 2]] * 4 + [[1, h // 2, w * 2, c1]]
+        if w % 2 == 0:
+            cands += [[1, h, w // 2, c1 * 2]] * 3
+        cands += [[1, h * w * c1]]
+        shp = rng.choice(cands)
+        r = b.reshape(y, shp)
+        if len(shp) == 2:
+            out = b.fc(r, rng.choice([4, 10, 20]))
+        else:
+            out = npu_tail(r)
+            if rng.random() < 0.4:
+                out = b.reshape(out, [1, 1, 1, -1] if False else [1, b.t(out).shape[1] * b.t(out).shape[2], 1, b.t(out).shape[3]])
+                out = npu_tail(out)
+        return b.finish([out])
+    if fam == "concat_unaligned":
+        parts = [b.conv(x, c, rng.choice([(1, 1), (3, 3)]), (1, 1), (1, 1), "SAME") for c in rng.choice([[8, 20], [20, 8, 4], [17, 16], [24, 24]])]
+        cat = b.concat(parts, 3)
+        return b.finish([npu_tail(cat)])
+    if fam in ("slice_unaligned", "split_unaligned"):
+        c1 = rng.choice([40, 48, 32])
+        y = b.conv(x, c1, (1, 1), (1, 1), (1, 1), "SAME")
+        if fam == "slice_unaligned":
+            c0 = rng.choice([8, 4, 16, 20])
+            s = b.strided_slice(y, [0, 0, 0, c0], [1, h, w, rng.randint(c0 + 1, c1)])
+            return b.finish([npu_tail(s)])
+        outs = b.split(y, rng.choice([2, 4]), 3)
+        return b.finish([npu_tail(o) for o in outs])
+    if fam == "transpose":
+        y = b.conv(x, rng.choice([8, 16, 20]), (1, 1), (1, 1), (1, 1), "SAME")
+        yt = b.t(y)
+        perm = b.const([4], "int32", [0, 2, 1, 3], name=b.fresh("perm"))
+        o = b.fm([1, yt.shape[2], yt.shape[1], yt.shape[3]], yt.dtype, scale=yt.scales[0], zp=yt.zps[0])
+        b.net.ops.append(Op("TRANSPOSE", [y, perm], [o], ("TransposeOptions", {})))
+        return b.finish([npu_tail(o)])
+    # resize_half_pixel
+    y = b.conv(x, rng.choice([8, 16]), (1, 1), (1, 1), (1, 1), "SAME") if rng.random() < 0.5 else x
+    r = b.resize(y, 2, "RESIZE_BILINEAR", align=False, half=True)
+    return b.finish([npu_tail(r)])
+
+
+def _ta_worker(job):
+    import random
+    import traceback
+    import zlib
+
+    import netgen
+    import pipeline
+    import pipe_common
+
+    seed, idx = job
+    rng = random.Random((seed << 20) ^ (idx * 104729) ^ zlib.crc32(b"ta_nets"))
+    out = {"idx": idx, "profile": "ta_nets", "seed": seed}
+    try:
+        net = ta_net(rng, idx)
+        opts = ["--accelerator-config", rng.choice(pipe_common.ACCS), "--optimise", rng.choice(["Size", "Performance"])]
+        data = netgen.serialize(net)
+        out.update(desc=net.describe(), opts=opts, family=net.name.split("_", 1)[-1])
+        res = pipeline.compile_net(data, opts, name=f"ta{idx}")
+        out["status"] = res.status
+        out["exc"] = (type(res.exc).__name__ + ": " + str(res.exc))[:300] if res.exc is not None else ""
+        if res.status == "ok" and res.out_model is not None:
+            out["extra"] = pipeline_extra(res)
+            out["npu_ops"] = [len(a.npu_ops) for a in res.streams]
+        pipeline.reset_process_state()
+    except BaseException:  # noqa: B902
+        out["harness_exception"] = traceback.format_exc()[-1500:]
+    return out
+
+
+def ta_corpus(ck, n):
+    """compile `n` networks of the families above (replay: `ta_lib._ta_worker((seed, index))`)"""
+    import multiprocessing
+    import os
+    from concurrent.futures import ProcessPoolExecutor
+
+    import pipeline
+
+    pipeline.load_vela()
+    jobs = [(ck.seed, i) for i in range(n)]
+    ctx = multiprocessing.get_context("fork")
+    with ProcessPoolExecutor(min(16, os.cpu_count() or 4), mp_context=ctx) as ex:
+        outs = list(ex.map(_ta_worker, jobs, chunksize=1))
+    for o in outs:
+        if "harness_exception" in o:
+            raise common.InfraError("ta_nets worker failed:\n" + o["harness_exception"])
+        ck.count("ta_nets_status_" + str(o.get("status")))
+        if o.get("status") == "ok" and sum(o.get("npu_ops") or [0]) > 0:
+            ck.count("ta_nets_npu_" + o.get("family", "?"))
+    return outs
